@@ -16,13 +16,15 @@ RET=$(python3 -c "import json;print(json.load(open('$DST/meta.json')).get('retir
 [ -n "$RET" ] && { echo "RETIRED: $RET"; exit 0; }
 git -C /repo worktree remove --force $EV 2>/dev/null
 git -C /repo worktree add -q --detach $EV HEAD || exit 2
-DEMO=$(ls $DST/demo*.py | head -1)
+# the demo runs from <worktree>/_seeded/, the place its author ran it from (paths relative to the demo file keep working)
+mkdir -p $EV/_seeded
+cp $DST/demo*.py $EV/_seeded/
+DEMO=$(ls $EV/_seeded/demo*.py | head -1)
+sed -i "s#$WT\\b#$EV#g" $EV/_seeded/demo*.py 2>/dev/null
 run_demo() { (cd $EV && case "$DEMO" in *_test.py) PYTHONPATH=$EV timeout 600 /venv/bin/python -m pytest -q -p no:cacheprovider "$DEMO" >/tmp/ev/$N.demo.out 2>&1;; *) PYTHONPATH=$EV timeout 600 /venv/bin/python "$DEMO" >/tmp/ev/$N.demo.out 2>&1;; esac; echo $?); }
-sed -i "s#$WT\\b#$EV#g" $DST/demo*.py 2>/dev/null
 clean=$(run_demo)
 (cd $EV && git apply $DST/patch.diff) || { echo "PATCH DOES NOT APPLY"; git -C /repo worktree remove --force $EV; exit 2; }
 mut=$(run_demo)
-sed -i "s#$EV\\b#$WT#g" $DST/demo*.py 2>/dev/null
 tests=$(cd $EV && timeout 1500 /venv/bin/python -m pytest -q -p no:cacheprovider --timeout=900 2>&1 | tail -1)
 echo "demo without change: exit $clean ; with change: exit $mut ; suite with change: $tests"
 res=""
